@@ -74,6 +74,9 @@ func (s *SvcSpec) SDL() string {
 		if strings.HasPrefix(impl, "interface") {
 			kw = "interface"
 			impl = strings.TrimSpace(strings.TrimPrefix(impl, "interface"))
+		} else if strings.HasPrefix(impl, "input") {
+			kw = "input"
+			impl = ""
 		}
 		fmt.Fprintf(&b, "%s %s", kw, t)
 		if impl != "" {
